@@ -415,7 +415,7 @@ func runC13(c *core.Ctx) {
 		}
 		got, derr, pan := gUnmarshalOwn(gen.TWCC, cloneBytes(e.B))
 		cs.Eval(1)
-		cs.Distinct(core.Digest(e.B[:64], []byte{byte(len(e.B) >> 16), byte(len(e.B) >> 8), byte(len(e.B))}))
+		cs.Distinct(core.Digest(e.B[:min(64, len(e.B))], []byte{byte(len(e.B) >> 16), byte(len(e.B) >> 8), byte(len(e.B))}))
 		if pan != "" {
 			cs.Fail("panic/Unmarshal", core.W{"statuses": n, "input_len": len(e.B), "input_head_hex": mon.Hex(e.B, 48), "panic": pan})
 			return
